@@ -5,12 +5,19 @@
   `RngAcc`), a configuration without an option documented as random makes no draw that can reach an
   evaluation point.  Real runs are tied to the model by recording every np.random draw with its call
   site (correspondence) and by running each configuration under different global RNG states (search).
-  NOT proved: absence of writes to the caller's arrays / dictionary (Python aliasing is not modelled):
-  observed with read-only arrays and a byte-for-byte comparison.
+  Layer G (tables regenerated from /repo's AST on every run, theorems decided over the tables themselves):
+  `C19_src_solve_writes_only_fresh_objects` — an ownership analysis of the body of `solve`: every in-place write goes
+  through a name bound to an object created inside the call, and the caller's x0 / bounds / projections / user_params
+  are handed on only to readers (the `projections` list reaches the solver as the caller's object only while empty);
+  `C19_src_no_state_outlives_a_call` — no class-level binding, no `global`/`nonlocal`, module-level bindings are
+  constants / `__all__` / loggers, and the only non-constant default argument is `solve(projections=[])`.
+  NOT proved: absence of writes by CALLEES through objects that escape, aliasing through containers (Python aliasing
+  is not modelled beyond that analysis): observed with read-only arrays and a byte-for-byte comparison.
 -/
 import DfolsVerif.Accept.RngAcc
 import DfolsVerif.Proofs.RngSites
 import DfolsVerif.Proofs.RestartGuards
+import DfolsVerif.Proofs.Ownership
 
 namespace Dfols
 namespace C19
@@ -52,6 +59,32 @@ theorem C19_src_rng_reach :
     from `solve_main` on every run -/
 theorem C19_growing_default_switch (m n : Int) : Gen.growingSwitchToPerturb m n = true ↔ m < n :=
   RestartGuards.growingSwitch_iff m n
+
+/-! ### layer G: ownership of what `solve` writes to, and state that outlives a call -/
+
+/-- **`solve` writes only to objects it created**: in the ownership analysis of its body (gen_ownership.py: the
+    caller's x0 / bounds / projections / user_params start as "caller"; a name becomes "fresh" only through a copying
+    form or an expression over fresh names; branches joined pessimistically) every subscript / attribute store,
+    augmented assignment, mutating method call and `del` goes through a "fresh" name; caller-owned data are passed on
+    only to readers, and the solver proper receives at most the caller's EMPTY `projections` list. -/
+theorem C19_src_solve_writes_only_fresh_objects :
+    (∀ p ∈ Gen.trackedParams, p ∈ Gen.solveParams) ∧
+    (∀ w ∈ Gen.solveWrites, w.owner = "fresh") ∧
+    (∀ e ∈ Gen.solveEscapes,
+      (e.owner = "caller" → e.callee ∈ Ownership.readers) ∧ (e.owner = "caller-empty" → e.arg = "projections") ∧
+      (e.owner = "caller" ∨ e.owner = "caller-empty")) :=
+  ⟨Ownership.tracked_are_params, Ownership.writes_fresh, Ownership.escapes_read_only⟩
+
+/-- **nothing a call could leave behind for the next one**: no class-level bindings, no `global` / `nonlocal`
+    statements, module-level bindings are constants, `__all__` lists or loggers, and the only default argument that is
+    not a constant is `solve(projections=[])`, which the previous theorem shows is never written to. -/
+theorem C19_src_no_state_outlives_a_call :
+    Gen.classState = [] ∧ Gen.globalStatements = [] ∧
+    (∀ b ∈ Gen.moduleState, b.kind = "const" ∨ (b.kind = "names" ∧ b.name = "__all__") ∨
+        (b.kind = "logger" ∧ b.name = "module_logger")) ∧
+    (∀ b ∈ Gen.nonConstantDefaults, b.file = "solver.py" ∧ b.name = "solve.projections") :=
+  ⟨Ownership.no_shared_class_or_global_state.1, Ownership.no_shared_class_or_global_state.2,
+   Ownership.module_state_immutable, Ownership.only_mutable_default⟩
 
 end C19
 end Dfols
